@@ -699,6 +699,8 @@ def rule_pairs(eng, ctx):
             g = fb.resolve_call(c)
             if g is None or g.key not in eng.reach:
                 continue
+            if is_copy_helper(eng, g):
+                continue  # its (pointer, size) arguments are the operands of the copy judged under R3 at this call
             c = facts.effective_call(c)
             args = c.get("args", [])
             for i, prm in enumerate(g.params):
@@ -934,13 +936,23 @@ def rule_construction(eng):
 
 
 # ------------------------------------------------------------------ R3
+def is_copy_helper(eng, g):
+    """g is a one-line copy helper and every decode-reachable call of it can be judged at the call site"""
+    sites = eng.callers.get(g.key, [])
+    return bool(sites) and all(cn.get("k") == "call" and facts.copy_helper_args(eng.fb, cn) is not None for _, cn in sites)
+
+
 def rule_copies(eng):
     fb, res = eng.fb, eng.res
     for f in eng.fns:
+        if is_copy_helper(eng, f):
+            continue
         for c in f.nodes():
             if c.get("k") not in ("call", "construct"):
                 continue
             ca = facts.copy_args(c) if c.get("k") == "call" else None
+            if ca is None and c.get("k") == "call":
+                ca = facts.copy_helper_args(fb, c)  # a one-line copy helper is judged where it is called
             managed = False
             if ca is None:
                 ca = facts.range_copy_args(f, c)
@@ -1167,6 +1179,18 @@ def justify_copy(eng, f, c, dst, src, ln, managed=False):
                 a = e.get("args", [])
                 if a:
                     sized = canon(strip_all_casts(a[0]))
+            elif i.get("delegating") and isinstance(i.get("e"), dict):
+                # delegating constructor: the target's initialiser sizes the member from one of its parameters
+                g = fb.resolve_call(i["e"])
+                dargs = facts.effective_call(i["e"]).get("args", []) if g is not None else []
+                for j in (g.raw.get("inits", []) if g is not None else []) or []:
+                    if j.get("field") and ("this->" + j["name"]) == vecname:
+                        ja = (j.get("e") or {}).get("args", [])
+                        if ja:
+                            src = strip_all_casts(ja[0])
+                            pd = [q["decl"] for q in g.params]
+                            if src.get("dk") == "param" and src.get("decl") in pd and pd.index(src["decl"]) < len(dargs):
+                                sized = canon(strip_all_casts(dargs[pd.index(src["decl"])]))
         exp = lcan if not offc else "(%s + %s)" % (offc, lcan)
         alt = None if not offc else "(%s + %s)" % (lcan, offc)
         if sized is not None and sized in (exp, alt):
